@@ -59,6 +59,9 @@ class TLCStuck(TLCError):
     pass
 
 
+IDLE = 300
+
+
 def run(module, cfg=None, workers=16, **kw):
     """_run_once, restarted (at most twice, the second time with one worker) when TLC stops making progress"""
     for attempt in range(3):
@@ -113,9 +116,30 @@ def _run_once(module, cfg=None, workers=16, simulate=None, depth=None, seed=None
                             text=True, errors='replace', bufsize=1 << 20)
     other = []
     last_progress = [None, 0]
+    # silence watchdog: TLC reports progress once a minute while it explores; a process that prints nothing for IDLE seconds is spinning
+    import threading
+    last_line = [time.time()]
+    silent = [False]
+    stop = threading.Event()
+
+    def _watch():
+        while not stop.wait(10):
+            if time.time() - last_line[0] > IDLE and proc.poll() is None:
+                silent[0] = True
+                try:        # diagnostic only
+                    dump = subprocess.run(['jstack', str(proc.pid)], capture_output=True, text=True, timeout=30).stdout
+                    with open(os.path.join(tempfile.gettempdir(), 'tlc_stuck_%d.txt' % proc.pid), 'w') as f:
+                        f.write(dump)
+                except Exception:
+                    pass
+                proc.kill()
+                return
+    wt = threading.Thread(target=_watch, daemon=True)
+    wt.start()
     try:
         deadline = t0 + timeout
         for line in proc.stdout:
+            last_line[0] = time.time()
             if line.startswith('"'):
                 s = line.rstrip('\n')
                 try:
@@ -156,7 +180,10 @@ def _run_once(module, cfg=None, workers=16, simulate=None, depth=None, seed=None
                 proc.kill()
                 raise TLCError('TLC timeout after %ss: %s' % (timeout, ' '.join(cmd)))
         proc.wait()
+        if silent[0]:
+            raise TLCStuck('TLC printed nothing for %d s and was stopped: %s' % (IDLE, ' '.join(cmd)))
     finally:
+        stop.set()
         if proc.poll() is None:
             proc.kill()
         shutil.rmtree(meta, ignore_errors=True)
